@@ -11,6 +11,7 @@ import (
 	"fmt"
 	"os"
 	"path/filepath"
+	"regexp"
 	"sort"
 	"strings"
 	"time"
@@ -50,6 +51,31 @@ func c08Fill(kind string, n int) []byte {
 		return append([]byte{'\n'}, bytes.Repeat([]byte{'x'}, n-1)...)
 	}
 	return gitx.Content("bin", n, 77)
+}
+
+// c08Lenient: an independent, deliberately lenient structural test — after trimming blanks the text has a
+// "version <url>" line, an "oid sha256:<64 hex>" line and a "size <digits>" line.  Everything git-lfs's decoder may
+// legitimately accept passes it; blank-only or arbitrary text does not.
+var c08LenientRE = []*regexp.Regexp{regexp.MustCompile(`(?m)^version \S+\r?$`), regexp.MustCompile(`(?m)^oid sha256:[0-9a-f]{64}\r?$`), regexp.MustCompile(`(?m)^size [0-9]+\r?$`)}
+
+func c08Lenient(b []byte) bool {
+	t := bytes.TrimSpace(b)
+	for _, re := range c08LenientRE {
+		if !re.Match(t) {
+			return false
+		}
+	}
+	return true
+}
+
+// c08WellFormed: "the bytes are themselves a well-formed pointer (shorter than 1024 bytes)": the zero-length input, or
+// fewer than 1024 bytes that git-lfs's own decoder accepts (it defines parseable) AND that structurally are a pointer
+// (so that a decoder which starts accepting blank or arbitrary text does not move the oracle with it).
+func c08WellFormed(b []byte) bool {
+	if len(b) == 0 {
+		return true
+	}
+	return c01ImplParses(b) && c08Lenient(b)
 }
 
 func c08Inputs(thorough bool) []c01Input {
@@ -125,6 +151,24 @@ func c08Inputs(thorough bool) []c01Input {
 			add(fmt.Sprintf("non-%s%d", kind, n), "nonptr", gitx.Content(kind, n, uint32(n)+5), 0)
 		}
 	}
+	// (5) whitespace-only content and blank prefixes (content in full; only the zero-length input is the empty pointer)
+	mixed := func(n int) []byte {
+		d := make([]byte, n)
+		for i := range d {
+			d[i] = " \n\t\r\n"[i%5]
+		}
+		return d
+	}
+	for _, n := range []int{1, 2, 1023, 1024, 1025, 2048} {
+		for _, fk := range []string{"sp", "nl", "crlf", "tab"} {
+			add(fmt.Sprintf("blank-%s-%d", fk, n), "blank", c08Fill(fk, n), 0)
+		}
+		add(fmt.Sprintf("blank-mixed-%d", n), "blank", mixed(n), 0)
+	}
+	add("blank-sp-1024-then-text", "blankprefix", append(c08Fill("sp", 1024), []byte("hello world\n")...), 0)
+	add("blank-nl-2000-then-text", "blankprefix", append(c08Fill("nl", 2000), []byte("hello world\n")...), 0)
+	add("blank-mixed-1030-then-pointer", "blankprefix", append(mixed(1030), []byte(c01BasePointerText(0))...), 0)
+	add("blank-nl-5-then-text", "blankprefix", []byte("\n\n\n\n\nhello world\n"), 0)
 	add("non-version-word", "nonptr", []byte("version "), 0)
 	add("non-git-lfs-word", "nonptr", []byte("git-lfs\n"), 0)
 	return r
@@ -176,7 +220,7 @@ func c08AllSingles(name string) bool {
 // of (SHA-256(input), len(input)) and the store gained exactly that object; (A) iff the whole input is < 1024 bytes
 // and git-lfs's own decoder accepts it.
 func c08JudgeClean(in, out []byte, before, after []c01StoreFile, cl map[string]int64) (branch string, fail *c01Fail) {
-	if c01ImplParses(in) {
+	if c08WellFormed(in) {
 		branch = "A-pointer-passthrough"
 		cl["A:output-equals-input"]++
 		if !bytes.Equal(out, in) {
@@ -243,9 +287,9 @@ func c08Class(in c01Input, ch c01Chunking) string {
 	var parts []string
 	if fr := ch.firstRead(n); fr < n && fr < 1024 {
 		switch {
-		case c01ImplParses(in.Data):
+		case n > 0 && c08WellFormed(in.Data):
 			parts = append(parts, "pointer-split-across-reads")
-		case fr > 0 && c01ImplParses(in.Data[:fr]):
+		case fr > 0 && c08WellFormed(in.Data[:fr]):
 			parts = append(parts, "first-read-ends-on-pointer-boundary")
 		default:
 			parts = append(parts, "short-first-read")
@@ -285,7 +329,7 @@ func (e *c01Env) c08PartInproc() c01Part {
 		rich := e.thorough || (wt.Kind == "absent" && !eof)
 		chs := c08Chunkings(in, c08AllSingles(in.Name) && rich, rich)
 		ch := chs[x.In(len(chs))]
-		parses := c01ImplParses(in.Data)
+		parses := c08WellFormed(in.Data)
 		caseID := fmt.Sprintf("inproc input=%s worktree=%s chunking=%s eof-with-last-read=%v", in.Name, wt, ch, eof)
 		r := vx.Result{Evals: 1, Counters: map[string]int64{}, NonTrivial: []string{caseID}, Sample: map[string]interface{}{"delivery": "in-process commands.clean/commands.smudge", "input": in.Name, "bytes": n,
 			"input_parses_as_pointer": parses, "worktree_file": wt.String(), "chunking": ch.String(), "eof_with_last_read": eof, "text": c01Short(in.Data)}}
@@ -398,7 +442,7 @@ func (e *c01Env) c08PartOneshot() c01Part {
 		wt := []c01WT{{Kind: "absent"}, {Kind: "same"}}[x.In(2)]
 		chs := e.c08OneshotChunkings(in, wt)
 		ch := chs[x.In(len(chs))]
-		parses := c01ImplParses(in.Data)
+		parses := c08WellFormed(in.Data)
 		caseID := fmt.Sprintf("oneshot input=%s worktree=%s chunking=%s", in.Name, wt, ch)
 		r := vx.Result{Evals: 1, Counters: map[string]int64{}, NonTrivial: []string{caseID}, Sample: map[string]interface{}{"delivery": "real `git-lfs clean -- f.bin` / `git-lfs smudge -- f.bin`, stdin = kernel pipe written chunk by chunk (next chunk after FIONREAD==0)",
 			"input": in.Name, "bytes": n, "input_parses_as_pointer": parses, "worktree_file": wt.String(), "chunking": ch.String()}}
@@ -481,7 +525,7 @@ func (e *c01Env) c08PartFilterProcess() c01Part {
 			}
 		}
 		pk := pks[x.In(len(pks))]
-		parses := c01ImplParses(in.Data)
+		parses := c08WellFormed(in.Data)
 		caseID := fmt.Sprintf("filter-process input=%s worktree=%s packets=%s", in.Name, wt, pk.name)
 		r := vx.Result{Evals: 1, Counters: map[string]int64{}, NonTrivial: []string{caseID}, Sample: map[string]interface{}{"delivery": "real `git-lfs filter-process`, own pkt-line client", "input": in.Name, "bytes": n,
 			"input_parses_as_pointer": parses, "worktree_file": wt.String(), "packet_payload_sizes": pk.name}}
@@ -500,7 +544,7 @@ func (e *c01Env) c08PartFilterProcess() c01Part {
 			if fp != nil {
 				fp.Close()
 			}
-			r.ToolErr = "filter-process handshake failed: " + err.Error()
+			r.Inconcl = "filter-process handshake did not complete"; _ = err
 			return r
 		}
 		status, out, rerr := fp.Request("clean", "f.bin", in.Data, pk.sizes)
@@ -563,7 +607,7 @@ func (e *c01Env) c08PartGit() c01Part {
 		n := len(in.Data)
 		process := x.In(2) == 0
 		act := actions[x.In(len(actions))]
-		parses := c01ImplParses(in.Data)
+		parses := c08WellFormed(in.Data)
 		mode := "one-shot filters"
 		if process {
 			mode = "filter-process"
@@ -662,7 +706,8 @@ func (e *c01Env) c08PartSkipSmudge() c01Part {
 		data []byte
 	}
 	files := []lf{{"a.bin", gitx.Content("bin", 1, 1)}, {"b.bin", gitx.Content("text", 1023, 2)}, {"c.bin", gitx.Content("bin", 1024, 3)}, {"d.bin", gitx.Content("text", 5000, 4)},
-		{"e.bin", []byte{}}, {"sub/f.bin", gitx.Content("bin", 70000, 5)}, {"g.bin", []byte(c01BasePointerText(0) + "xx")}}
+		{"e.bin", []byte{}}, {"sub/f.bin", gitx.Content("bin", 70000, 5)}, {"g.bin", []byte(c01BasePointerText(0) + "xx")},
+		{"h.bin", []byte("\n\n\n")}, {"i.bin", bytes.Repeat([]byte(" \t\r\n"), 400)}}
 	run := func(x *vx.X) vx.Result {
 		op := ops[x.In(len(ops))]
 		variant := variants[x.In(len(variants))]
@@ -687,7 +732,8 @@ func (e *c01Env) c08PartSkipSmudge() c01Part {
 				return true
 			}
 			if !rs.OK() {
-				r.ToolErr = "setup step " + step + " failed: " + rs.String()
+				// a failing git command emits no wrong pointer: not a verdict of this property; the other parts decide
+				r.Inconcl = "setup step " + step + " did not succeed"
 				return true
 			}
 			return false
@@ -700,6 +746,38 @@ func (e *c01Env) c08PartSkipSmudge() c01Part {
 		if fail("add", w.Git(src, "add", ".")) || fail("commit", w.Git(src, "commit", "-qm", "c1")) {
 			return r
 		}
+		// what the original commit recorded is itself subject to the dichotomy: every file here is content (B)
+		srcStore := c01ScanStore(c01LfsDir(src))
+		for _, f := range files {
+			blob := []byte(w.Git(src, "cat-file", "blob", "HEAD:"+f.path).Out)
+			want := c01Canon(c01Sha(f.data), len(f.data))
+			cl["B:output-is-pointer-of-whole-input"]++
+			r.Evals++
+			var bf *c01Fail
+			if string(blob) != want {
+				clause := "wrong-pointer"
+				if bytes.Equal(blob, f.data) {
+					clause = "content-passed-through"
+				} else if len(blob) < len(f.data) && bytes.Equal(blob, f.data[:len(blob)]) {
+					clause = "content-truncated"
+				}
+				bf = &c01Fail{clause, fmt.Sprintf("git add + commit of %s (%d bytes, not a pointer: %s) recorded %s instead of the pointer to all of it", f.path, len(f.data), c01Short(f.data), c01Short(blob))}
+			} else if len(f.data) > 0 {
+				cl["B:store-gained-exactly-that-object"]++
+				if o := c01FindObject(srcStore, c01Sha(f.data)); o == nil || o.Sha != c01Sha(f.data) {
+					bf = &c01Fail{"store-not-exactly-the-object", fmt.Sprintf("git add of %s did not store object %s", f.path, c01Sha(f.data))}
+				}
+			}
+			if bf != nil {
+				kind := "kind=nonptr"
+				if len(bytes.TrimSpace(f.data)) == 0 {
+					kind = "kind=blank"
+				}
+				r.Violations = append(r.Violations, c01Viol(e.prop, bf, kind+",size"+c01SizeBucket(len(f.data)), caseID+" (original commit)", nil))
+				r.Outcome = fmt.Sprintf("skipsmudge/%s/%s/FAIL-%s", op, variant, bf.Clause)
+				return r
+			}
+		}
 		dst := filepath.Join(w.Root, "dst")
 		skip := []string{"GIT_LFS_SKIP_SMUDGE=1"}
 		if fail("clone", w.GitE(w.Root, skip, "clone", "-q", src, dst)) {
@@ -710,7 +788,9 @@ func (e *c01Env) c08PartSkipSmudge() c01Part {
 			got, _ := os.ReadFile(filepath.Join(dst, f.path))
 			want := c01Canon(c01Sha(f.data), len(f.data))
 			if string(got) != want {
-				r.ToolErr = fmt.Sprintf("precondition: after the skip-smudge clone %s is not the pointer file (%s)", f.path, c01Short(got))
+				// with smudging skipped the pointer blob is what must land in the work tree; whether it does is C04's
+				// subject — without it this scenario cannot be set up
+				r.Inconcl = "skip-smudge clone did not leave the pointer file in the work tree"
 				return r
 			}
 			wantWT[f.path] = got
@@ -731,7 +811,7 @@ func (e *c01Env) c08PartSkipSmudge() c01Part {
 					if i == 3 {
 						nb = []byte(strings.ReplaceAll(string(wantWT[f.path]), "\n", "\r\n"))
 					}
-					if c01ImplParses(nb) {
+					if c08WellFormed(nb) {
 						os.WriteFile(p, nb, 0644)
 						wantWT[f.path] = nb
 					}
@@ -818,11 +898,11 @@ func (e *c01Env) c08PartSkipSmudge() c01Part {
 func c08Describe(c *vx.Check, e *c01Env) {
 	c.Rule = "one execution = one case = one choice vector (input x working-tree state x chunking x delivery); nothing is sampled. " +
 		"inputs: the empty input; 5 canonical pointers (plain, size 1, max size, 1 and 2 extension lines); 20 non-canonical or damaged spellings of each of 2 (thorough: 5) of them (extra/missing final newline, leading blank, CRLF, trailing blanks, blank line inside, version aliases, wrong version, swapped/duplicate/unknown lines, size 0, negative size, upper-case oid, truncated, doubled) — git-lfs's own decoder decides which are pointers; " +
-		"a pointer extended by {spaces, newlines, CRLF, tabs, an unknown line, a second size line, 'x', blank line + 'x', binary} to total lengths {pointer+1, 1022, 1023, 1024, 1025, 2048 (binary/newlines also 4096, 70000)}; non-pointers of 1/1023/1024/1025 bytes. " +
+		"a pointer extended by {spaces, newlines, CRLF, tabs, an unknown line, a second size line, 'x', blank line + 'x', binary} to total lengths {pointer+1, 1022, 1023, 1024, 1025, 2048 (binary/newlines also 4096, 70000)}; non-pointers of 1/1023/1024/1025 bytes; whitespace-only inputs {spaces, LF, CR LF, tabs, mixed} x {1,2,1023,1024,1025,2048} bytes and blank prefixes followed by text / a pointer. " +
 		"chunkings: every set of <=2 cut points from {1, 60, end of pointer text -1/0/+1, 1023, 1024, 1025, size-1}, 1 byte per read (sizes<=1025), and for 6 inputs every single cut position; EOF separately / with the last data; working-tree file absent / same bytes. " +
-		"oracle per case: (A) output == input and store unchanged iff input < 1024 bytes and lfs.DecodePointer accepts it, else (B) output == canonical pointer of (SHA-256(input), len(input)) and the store gained exactly that object; for inputs of class B the same bytes are also smudged: output == input. " +
+		"oracle per case: (A) output == input and store unchanged iff the input is empty or (< 1024 bytes, lfs.DecodePointer accepts it, and it has version/oid/size lines by an independent structural test), else (B) output == canonical pointer of (SHA-256(input), len(input)) and the store gained exactly that object; for inputs of class B the same bytes are also smudged: output == input. " +
 		"oneshot: real binary through a kernel pipe with exact chunking (quick <=1 cut, thorough <=2); filterprocess: packet payload sizes {1,1023,1024,1025,65516,1/65516}; git: git add, git hash-object --path, git cat-file --filters with filter-process and one-shot filters; " +
-		"skipsmudge: GIT_LFS_SKIP_SMUDGE=1 clone of 7 LFS files (0,1,1023,1024,5000,70000 bytes, look-alike) then {add -A, add --renormalize, stash, commit -a} x {mtime touched, rewritten, user appended newline / CRLF} x filter mode. " +
+		"skipsmudge: GIT_LFS_SKIP_SMUDGE=1 clone of 9 LFS files (0,1,1023,1024,5000,70000 bytes, look-alike, two whitespace-only) then {add -A, add --renormalize, stash, commit -a} x {mtime touched, rewritten, user appended newline / CRLF} x filter mode. " +
 		"distinct_nontrivial = distinct cases (every case evaluates the dichotomy)"
 	c.Assumptions = []string{
 		"'well-formed pointer' = shorter than 1024 bytes and accepted by lfs.DecodePointer when handed over in one piece (the implementation defines parseable; C07 ties that decoder to the spec)",
